@@ -218,6 +218,7 @@ def xss_inputs(tier, salt):
             items.append(vgen.b(opener) + body)
     items += list(vgen.all_bytes_in_context(vgen.HTML_BYTE_FRAMES))
     items += vgen.long_html_inputs(big)
+    items += list(vgen.context_carry_inputs())
     return list(vgen.dedup(items))
 
 
@@ -496,7 +497,7 @@ def c13(tier, sc):
     # treats the very first bytes)
     noattr = [t for t in tmpl if 60 not in t and len(t) <= 40]
     firsts = [S(x) for x in ("=", "/", ">", "'", '"', "`", " ", "\x00", "= ", "/ ", "x=", "'=", '"=', "`=", "=>", "\t", "a ")]
-    tmpl = list(vgen.dedup(tmpl + [f + t for f in firsts for t in noattr]))
+    tmpl = list(vgen.dedup(tmpl + [f + t for f in firsts for t in noattr] + list(vgen.context_carry_inputs())))
     cases = xss_props(sc, d, rep, "embed", "embed", S("<>/='\"` a=x!-"), 5 if big else 4, templates=tmpl)
     flat = []
     for c in cases:
@@ -996,6 +997,11 @@ SQL_TOKEN_UNITS_EXTRA = [":=", "*", "!!", "~", "!", "<=>", "ifnull", "`a` ", "ut
 WINDOW_UNITS = ["a ", ", ", "/*!*/", "1 ", "{ "]
 
 
+# the four token patterns of fold()'s five-token special case (1o(1) no(n) 1),(1 n)o(n), complete and one token short:
+# what follows them is enumerated (tokens that change class late reach the branch with a sixth token already read)
+SPECIAL_OPENERS = ["1 * ( 1 ) ", "a * ( a ) ", "1 ) , ( 1 ", "a ) * ( a ", "1 * ( ", "a * ( ", "1 ) , ( ", "a ) * ( "]
+
+
 def sqli_configs(tier):
     """(name, level, units, maxlen, openers, flags) explored exhaustively by TLC on Sqli.tla."""
     S = vgen.b
@@ -1022,6 +1028,7 @@ def sqli_configs(tier):
             ("check.tok", "check", SQL_TOKEN_UNITS, 3, [""], [9]),
             ("check.tokq", "check", SQL_TOKEN_UNITS[:16], 3, ["1'", "1\" "], [9]),
             ("check.window", "check", WINDOW_UNITS[:4], 7, [""], [9]),
+            ("pass.special", "pass", SQL_TOKEN_UNITS + ["*"], 2, SPECIAL_OPENERS, [9]),
         ]
     return [
         ("lex.sigma3", "lex", sig_lex, 3, [""], ALLFLAGS),
@@ -1043,6 +1050,7 @@ def sqli_configs(tier):
         ("check.tok", "check", SQL_TOKEN_UNITS, 4, [""], [9]),
         ("check.tokq", "check", SQL_TOKEN_UNITS[:16], 4, ["1'", "1\" "], [9]),
         ("check.window", "check", WINDOW_UNITS, 8, [""], [9]),
+        ("pass.special", "pass", SQL_TOKEN_UNITS + ["*"], 3, SPECIAL_OPENERS, [9, 17]),
     ]
 
 
@@ -1087,7 +1095,9 @@ def keyword_frames(big):
         try:
             vh = build_harness(sc)
             _, jfile = gen_tables(sc, vh)
-            _KW_CACHE["kw"] = [e["key"] for e in json.load(open(jfile))["keywords"] if e["val"] != 70]
+            kws = json.load(open(jfile))["keywords"]
+            _KW_CACHE["kw"] = [e["key"] for e in kws if e["val"] != 70]
+            _KW_CACHE["fp"] = [bytes(e["key"]).decode("latin1") for e in kws if e["val"] == 70]
         finally:
             sc.cleanup()
     out = []
@@ -1128,6 +1138,8 @@ def sqli_inputs(tier, salt):
     items += list(vgen.literal_bodies(6 if big else 4))
     items += keyword_frames(big)
     items += list(vgen.window_frames())
+    keyword_frames(big)                       # (fills _KW_CACHE)
+    items += list(vgen.fingerprint_inputs(_KW_CACHE["fp"], r, 1.0 if big else 0.2))
     items += vgen.long_sql_inputs(big)
     return list(vgen.dedup(items))
 
@@ -1796,6 +1808,19 @@ def c05(tier, sc):
     d = stage_specs(sc, "c05", [tfile])
     big = tier == "thorough"
     pool = c05_pool(big)
+    nbase = len(pool)
+    # for the free-running phases only: every lexical construct, each in two spellings that differ in the byte a
+    # shared scratch variable would hold (delimiter, tag, quote, prefix letter)
+    for x in ["q'(a)' or 1=1 -- ", "q'!a)' or 1=1 -- ", "nq'[a]' or 1=1 -- ", "Q'<a>' union select 1", "$a$x$a$ or 1=1", "$b$x$a$ or 1=1", "$$x$$ or 1=1",
+              "x'41' or 1=1", "b'01' or 1=1", "0x41 or 1=1", "1e5 or 1=1", "$1.50 or 1=1", "@a or 1=1", "@@a or 1=1", "@`a` or 1=1", "[a] or 1=1",
+              "1 /*!or*/ 1=1", "1 /* x */ or 1=1 # y", "1 -- x\n or 1=1", "e'a\\'b' or 1=1", "u&'a' or 1=1", "n'a' or 1=1", "\"a\" or \"a\"=\"a\"",
+              "`a` or `a`=`a`", "{ a } or 1=1", "1 <=> 1 or 1=1", "select.1 or.1", "a.b.c or 1=1", "CURRENT_USER or 1=1", "1 union all select 1",
+              "1;if(1=1) waitfor delay '0:0:5'", "1 collate utf8_bin or 1=1", "1 in (1) or 1 not in (2)", "1 like 1 or 1 not like 2"]:
+        pool.append({"id": len(pool) + 1, "api": "sqli", "in": vgen.b(x)})
+    for x in ["<a href='&#106;avascript:1'>", "<a href=\"&#x6a;avascript:1\">", "<a href=`javascript:1`>", "<x y='z' onclick=1>", "<x y=\"z\" onload=1>",
+              "<!--[if x]>", "<!--`-->", "<?xml x?>", "<!ENTITY x>", "<![CDATA[x]]><x onclick=1>", "<% x `%>", "</script x>", "</a ><script>",
+              "<x xmlns:y=z>", "<x style=a>", "<x\x00 on\x00click=1>", "x' onclick=1 y='", "x\" onclick=1 y=\"", "x` onclick=1 y=`", "= onclick=1"]:
+        pool.append({"id": len(pool) + 1, "api": "xss", "in": vgen.b(x)})
     pfile = sc.path("pool.ndjson")
     write_ndjson(pfile, pool)
     # reference: every pool input as the only call of a freshly started process
@@ -1819,7 +1844,7 @@ def c05(tier, sc):
         if r["tables_before"] != r["tables_after"]:
             rep.violation("tables changed during a single call on pool item %d" % i, {"kind": "api.tables", "id": i})
     # model: every interleaving at gate granularity, every history; exported and forced on the real code
-    ids = sorted(gates)
+    ids = sorted(i for i in gates if i <= nbase)
     sq_ids = [i for i in ids if pool[i - 1]["api"] == "sqli"]
     xs_ids = [i for i in ids if pool[i - 1]["api"] == "xss"]
     pick = sorted(sq_ids, key=lambda i: -gates[i])[:2] + sq_ids[1:2] + xs_ids[:1]
